@@ -127,7 +127,7 @@ def run_writer_config(cfg, res, world):
   from vlib import sched as S
   r = gen.rng(cfg['seed'], 'C02w', cfg['name'])
   label = cfg['strategy'] + '/writer'
-  excs = ['IOError', 'OSError', 'ValueError', 'KeyError']
+  excs = ['IOError', 'OSError', 'ValueError', 'KeyError', 'EINTR', 'EAGAIN', 'ENOSPC', 'EIO']
   seen = set()
   for w in range(2 if cfg['tier'] == 'quick' else 8):
     ops = gen_writer_workload(r)
